@@ -38,9 +38,7 @@ import (
 
 var sharedPrograms = []struct{ name, src string }{
 	{"reads", `
-load("m", "L", "D", "S", "C", "F", "BM", "K", "F10", "N3")
-t(0, F10(1, j = 2, zz = 3))
-t(9, N3())
+load("m", "L", "D", "S", "C", "F", "BM", "K")
 t(1, [x for x in L if x != 1])
 t(2, sorted(S, key = K))
 t(3, (C(3), F(2), BM("two")))
@@ -67,6 +65,12 @@ def c(z):
     return z.nope
 t(1, len(L))
 r = a([T[1][1], L])
+`},
+	// (last: the longest program; its level is the first to be cut when the machine is busy)
+	{"calls-of-shared-functions", `
+load("m", "F10", "N3")
+t(0, F10(1, j = 2, zz = 3))
+t(9, N3())
 `},
 }
 
@@ -235,11 +239,21 @@ type schedCase struct {
 
 // explore enumerates all schedules with at most bound preemptions
 // (iterative context bounding); subtrees are sharded by their first deviation.
-func explore(c *fw.Ctx, fx *fixture, name string, p *starlark.Program, n, bound int, solo transcript, st *fw.Stats) {
+func explore(c *fw.Ctx, fx *fixture, name string, p *starlark.Program, n, bound int, solo transcript, st *fw.Stats) (complete bool) {
 	outcomes := map[string]bool{}
 	nviol := 0
+	cut := false
+	nrun := 0
 	var rec func(prefix []int, depthMine bool)
 	rec = func(prefix []int, mine bool) {
+		if cut {
+			return
+		}
+		if nrun++; nrun%64 == 0 && c.Expired() {
+			// out of budget: what was explored is reported, the level is not
+			cut = true
+			return
+		}
 		x := runSchedule(fx, p, n, prefix)
 		if mine {
 			st.Schedules++
@@ -260,9 +274,16 @@ func explore(c *fw.Ctx, fx *fixture, name string, p *starlark.Program, n, bound 
 			}
 			outcomes[fmt.Sprint(x.transcripts[0].Err != "")] = true
 		}
+		pre := x.preemptionsBefore(len(prefix))
 		for i := len(prefix); i < len(x.points); i++ {
 			pt := x.points[i]
-			cost := x.preemptionsBefore(i)
+			if i > len(prefix) {
+				// preemptions among the points before i, kept incrementally
+				if q := x.points[i-1]; q.running >= 0 && len(q.enabled) > 0 && q.enabled[0] == q.running && x.choices[i-1] != 0 {
+					pre++
+				}
+			}
+			cost := pre
 			if pt.running >= 0 && len(pt.enabled) > 0 && pt.enabled[0] == pt.running {
 				cost++
 			}
@@ -284,6 +305,7 @@ func explore(c *fw.Ctx, fx *fixture, name string, p *starlark.Program, n, bound 
 		}
 	}
 	rec(nil, c.Shard == 0)
+	return !cut
 }
 
 func compress(ch []int) string {
@@ -410,7 +432,10 @@ func worker(c *fw.Ctx) *fw.Stats {
 				}
 				continue
 			}
-			explore(c, fx, sp.name, p, cf.threads, cf.bound, solo, st)
+			if !explore(c, fx, sp.name, p, cf.threads, cf.bound, solo, st) {
+				st.Cut = append(st.Cut, fmt.Sprintf("interleavings:%s:threads=%d(shard %d ran out of budget inside the level)", sp.name, cf.threads, c.Shard))
+				continue
+			}
 			if c.Shard == 0 {
 				st.Levels = append(st.Levels, fmt.Sprintf("interleavings:%s: %d threads x %d steps each, all schedules with <= %d preemptions", sp.name, cf.threads, solo.Steps, cf.bound))
 				st.Sample(map[string]any{"sub_check": "interleaving", "program": sp.name, "threads": cf.threads, "preemption_bound": cf.bound, "solo_transcript": solo})
@@ -525,6 +550,23 @@ func runRace(c *fw.Ctx, total *fw.Stats) {
 
 func run(c *fw.Ctx) *fw.Stats {
 	total := c.Sharded(0, nil)
+	// a level that any shard had to cut is not a completed level
+	var keep []string
+	for _, l := range total.Levels {
+		cutBySome := false
+		for _, cu := range total.Cut {
+			if i := strings.Index(cu, ":threads="); i > 0 && strings.HasPrefix(l, cu[:i]+":") {
+				cutBySome = true
+			}
+		}
+		if !cutBySome {
+			keep = append(keep, l)
+		}
+	}
+	total.Levels = keep
+	if len(total.Cut) > 3 {
+		total.Cut = append(total.Cut[:3:3], fmt.Sprintf("... and %d more shards", len(total.Cut)-3))
+	}
 	runRace(c, total)
 	return total
 }
